@@ -2,7 +2,7 @@
 From Coq Require Import List Arith Bool Reals ZArith QArith Qcanon Ring.
 From Coquelicot Require Import Coquelicot.
 Require Import NV.C03.Model NV.C03.Proofs NV.C03.PtwBase NV.C03.Gen_Ptw NV.C03.Proofs_Ptw
-               NV.C03.TableR NV.C03.Proofs_Real NV.C03.Proofs_Table NV.C03.ModelQ NV.C03.Proofs_Q.
+               NV.C03.TableR NV.C03.Proofs_Real NV.C03.Proofs_Table NV.C03.ModelQ NV.C03.Proofs_Q NV.C03.Einsum NV.C03.Proofs_Einsum.
 
 (* ---------------------------------------------------------------------------------------------
    Algebra, over EVERY commutative ring, every expression tree (any depth, any number of keys and
@@ -112,6 +112,25 @@ Theorem C03_jacobian_is_derivative :
     is_derive (fun s => eval R 0%R Rplus Rmult Rminus rname rtab e (line r d s) i) t
               (times R 0%R Rplus Rmult (snd (lin R 0%R 1%R Rplus Rmult Rminus rname rtab om e (line r d t))) d i).
 Proof. exact jacobian_is_derivative. Qed.
+
+(* MultiLinearEinsum (einsum.py), any commutative ring, any subscripts, any number of operands in any key_order: the
+   Jacobian the code assembles -- the sum over the operands of the contraction with that operand replaced by its
+   tangent, the other operands keeping their own subscripts -- applied to a tangent is the dual (forward-mode)
+   part of the contraction with every operand perturbed; the value part is the plain contraction. *)
+Theorem C03_einsum_jacobian :
+  forall (A : Type) (a0 a1 : A) (aadd amul asub : A -> A -> A) (aopp : A -> A),
+    ring_theory a0 a1 aadd amul asub aopp (@eq A) ->
+  forall (iss : list (list nat)) (oss summed : list nat) (dim : nat -> nat)
+         (ops ds : list (Einsum.tensor A)) (z : Einsum.tensor A) (oidx : list nat),
+    length ops = length iss -> length ds = length iss ->
+    Einsum.sumn A a0 aadd (length iss)
+      (fun p => ein_jac A a0 a1 aadd amul iss oss summed dim ops p (nth p ds z) oidx)
+    = sum_over A a0 aadd summed dim (bind oss oidx (fun _ => 0%nat))
+        (fun s => snd (dterm A a0 a1 aadd amul iss ops ds s))
+    /\ ein A a0 a1 aadd amul iss oss summed dim ops oidx
+       = sum_over A a0 aadd summed dim (bind oss oidx (fun _ => 0%nat))
+           (fun s => fst (dterm A a0 a1 aadd amul iss ops ds s)).
+Proof. exact ein_jacobian_dual. Qed.
 
 (* The rational instance executed by the correspondence check satisfies the hypotheses of the
    algebra theorems (ring, table purity, 1/2 * 2 = 1). *)
